@@ -145,7 +145,7 @@ pub fn fold_trampolines(c: &mut Code) -> u64 {
     folds
 }
 
-fn fold_all(s: &mut Sem) -> u64 {
+pub fn fold_all(s: &mut Sem) -> u64 {
     let mut n = 0;
     for m in s.methods.iter_mut() {
         if let Some(c) = &mut m.code {
